@@ -54,13 +54,14 @@ type Ctx struct {
 	heapCellT map[string]types.Type // heap name -> Go type of one cell (nil for ghost)
 	heapDims  map[string]int        // 1: Array Int T, 2: Array Int (Array Int T) / map
 	heapKeyS  map[string]string     // second-dimension index sort (for element / map heaps)
+	heapReg   map[string]func(*Ctx) // how to (re-)register a heap name in another context
 }
 
 func newCtx(P *Program) *Ctx {
 	c := &Ctx{P: P, declared: map[string]bool{}, sorts: map[string]string{}, structs: map[string]*types.Struct{},
 		heapSort: map[string]string{}, typeIDs: map[string]int{}, notes: map[string]bool{}, ordinals: map[string]int{},
 		strLits: map[string]bool{}, nonzero: map[string]bool{}, sliceParts: map[string][4]string{},
-		heapCellT: map[string]types.Type{}, heapDims: map[string]int{}, heapKeyS: map[string]string{}}
+		heapCellT: map[string]types.Type{}, heapDims: map[string]int{}, heapKeyS: map[string]string{}, heapReg: map[string]func(*Ctx){}}
 	c.typeByID = append(c.typeByID, nil)
 	return c
 }
@@ -578,6 +579,7 @@ func (c *Ctx) fieldHeap(structT types.Type, i int) string {
 	if _, ok := c.heapSort[name]; !ok {
 		c.heapSort[name] = "(Array Int " + c.sortOf(s.Field(i).Type()) + ")"
 		c.heapCellT[name], c.heapDims[name] = s.Field(i).Type(), 1
+		c.heapReg[name] = func(o *Ctx) { o.fieldHeap(structT, i) }
 	}
 	return name
 }
@@ -587,6 +589,7 @@ func (c *Ctx) boxHeap(t types.Type) string {
 	if _, ok := c.heapSort[name]; !ok {
 		c.heapSort[name] = "(Array Int " + c.sortOf(t) + ")"
 		c.heapCellT[name], c.heapDims[name] = t, 1
+		c.heapReg[name] = func(o *Ctx) { o.boxHeap(t) }
 	}
 	return name
 }
@@ -596,6 +599,7 @@ func (c *Ctx) elemHeap(elem types.Type) string {
 	if _, ok := c.heapSort[name]; !ok {
 		c.heapSort[name] = "(Array Int (Array Int " + c.sortOf(elem) + "))"
 		c.heapCellT[name], c.heapDims[name], c.heapKeyS[name] = elem, 2, "Int"
+		c.heapReg[name] = func(o *Ctx) { o.elemHeap(elem) }
 	}
 	return name
 }
@@ -609,6 +613,9 @@ func (c *Ctx) mapHeaps(m *types.Map) (has, val, length string) {
 		c.heapSort[val] = "(Array Int (Array " + ks + " " + c.sortOf(m.Elem()) + "))"
 		c.heapSort[length] = "(Array Int Int)"
 		c.heapCellT[val], c.heapDims[val], c.heapKeyS[val] = m.Elem(), 2, ks
+		for _, n := range []string{has, val, length} {
+			c.heapReg[n] = func(o *Ctx) { o.mapHeaps(m) }
+		}
 	}
 	return
 }
@@ -618,6 +625,7 @@ func (c *Ctx) globalHeap(pkg, name string, t types.Type) string {
 	if _, ok := c.heapSort[h]; !ok {
 		c.heapSort[h] = "(Array Int " + c.sortOf(t) + ")"
 		c.heapCellT[h], c.heapDims[h] = t, 1
+		c.heapReg[h] = func(o *Ctx) { o.globalHeap(pkg, name, t) }
 	}
 	return h
 }
@@ -649,6 +657,7 @@ func (c *Ctx) ghostVar(name, sortS string) string {
 	h := "ghost:" + name
 	if _, ok := c.heapSort[h]; !ok {
 		c.heapSort[h] = sortS
+		c.heapReg[h] = func(o *Ctx) { o.ghostVar(name, sortS) }
 	}
 	return h
 }
